@@ -121,10 +121,40 @@ def translate():
         out["pc_add_checked"] = B(True)
     else:
         raise ShapeError("ProgramCounter + usize has unrecognised shape")
+    # ---------------- range checks where a value enters the program counter
+    pcd = arm(cg, r"Token::ProgramCounterDefinition \{ value, \.\. \} => \{", "Token::ProgramCounterDefinition")
+    if not pcd.startswith("if let Some(pc) = self.evaluate_expression_as_i64(value, true)? {") or "seg.set_pc(pc);" not in pcd:
+        raise ShapeError("Token::ProgramCounterDefinition has unrecognised shape")
+    mr = re.search(r"if !\(0\.\.=(0x[0-9a-fA-F]+|\d+)\)\.contains\(&pc\) \{ return Err\(", pcd)
+    # the range check must come before the segment is consulted (pass 0 has none)
+    pc_checked = bool(mr) and pcd.index(mr.group(0)) < pcd.index("self.try_current_segment_mut()")
+    reloc = bool(re.search(r"if pc \+ seg\.target_offset\(\) < 0 \{ return Err\(", pcd)) and pcd.index("seg.target_offset() < 0") < pcd.index("seg.set_pc(pc);")
+    ncg = norm(cg)
+    start_checked = 'opts.initial_pc = extractor.check_address("start", val)?.into()' in ncg
+    start_plain = "opts.initial_pc = val.into()" in ncg
+    tgt_checked = 'opts.target_address = extractor.check_address("pc", target)?.into()' in ncg
+    tgt_plain = "Some(target) => opts.target_address = target.into()," in ncg
+    if not (start_checked or start_plain) or not (tgt_checked or tgt_plain):
+        raise ShapeError("segment options start / pc: construction of the program counters has unrecognised shape")
+    ca = re.search(r"pub fn check_address\(&self, key: &str, address: i64\) -> CoreResult<i64> \{ if \(0\.\.=(0x[0-9a-fA-F]+|\d+)\)\.contains\(&address\) \{ Ok\(address\) \} else \{", ce)
+    seg_checked = start_checked and tgt_checked and bool(ca)
+    limits = set(int(x.group(1), 0) for x in (mr, ca) if x)
+    if len(limits) > 1:
+        raise ShapeError("`* =` and segment options use different program counter limits")
+    out["pc_values_checked"] = B(pc_checked and seg_checked)
+    out["pc_limit"] = "%d" % (limits.pop() if limits else 0)
+    out["relocated_pc_checked"] = B(reloc)
+    bra = norm(between(cg, r"Token::Instruction\(i\) => \{", r"Token::Label \{", "instruction arm"))
+    if "let mut offset = target_pc.wrapping_sub(cur_pc);" in bra:
+        out["branch_sub_checked"] = B(True)
+    elif "let mut offset = target_pc - cur_pc;" in bra:
+        out["branch_sub_checked"] = B(False)
+    else:
+        raise ShapeError("branch arm: offset computation has unrecognised shape")
     lines = ["(* GENERATED by translate/t_c06sites.py from mos-core/src/{codegen/mod.rs,codegen/segment.rs,codegen/program_counter.rs,"
              "codegen/config_extractor.rs,parser/identifier.rs}. DO NOT EDIT. *)",
              "From Coq Require Import ZArith.", "Open Scope Z_scope."]
-    types = {"align_cap": "option Z", "loop_count_limit": "option Z", "macro_depth_limit": "option nat"}
+    types = {"align_cap": "option Z", "loop_count_limit": "option Z", "macro_depth_limit": "option nat", "pc_limit": "Z"}
     for k in sorted(out):
         lines.append("Definition %s : %s := %s." % (k, types.get(k, "bool"), out[k]))
     fp = write_if_changed("C06Sites.v", "\n".join(lines) + "\n")
